@@ -94,6 +94,13 @@ func c04Run(c *core.Ctx) {
 			c04One(c, mkCase(src, v, "special head/body/tail or literal form"))
 		}
 	}
+	for _, src := range chainPrograms(c) {
+		for _, v := range []*version.Version{drive.V74, drive.V56} {
+			if c.Next() {
+				c04One(c, mkCase(src, v, "postfix chain"))
+			}
+		}
+	}
 	if c04Bytes != nil {
 		c04Bytes(c, c04One)
 	}
